@@ -19,7 +19,7 @@ VARIABLES req, parsed, toml, args, pc
 cvars == <<req, parsed, toml, args, pc>>
 
 ListOpts  == {"elements", "pseudo_elements", "allowed", "required", "files", "formats", "heating", "cooling"}
-TableOpts == {"replacement", "binding", "yield", "shielding", "rate_modifier"}
+TableOpts == {"replacement", "binding", "yield", "shielding", "rate_modifier", "ode_modifier"}   \* (an ODE-modifier token = species, position, factor and the dependency LIST with its repeats)
 ScalarOpts == {"surface", "bulk", "grain", "grain_model", "solver", "device", "method"}
 
 Norm(tok) == [shape |-> IF tok.shape = "padded" /\ Variant # "keep_padding" THEN "plain" ELSE tok.shape, id |-> tok.id]
